@@ -8,7 +8,7 @@ from vf.gen import pick_weighted
 from props import b16dag as D
 
 ID = "C51"
-THEOREMS = ["C51_table_consistent", "C51_overflow_count_before_fix_refuted"]
+THEOREMS = ["C51_table_consistent", "C51_reader_accepts", "C51_overflow_count_before_fix_refuted"]
 MODEL_FILES = ["CommitGraph.v"]
 MODELLED = ("plumbing/format/commitgraph: MemoryIndex.Add/HasGenerationV2, CommitData.GenerationV2Data, Encoder.Encode (prepare, "
             "chunk table, fanout, OID lookup, commit data incl. octopus edges, generation data + overflow) and the fileIndex reader "
